@@ -86,9 +86,10 @@ def ulps(x, k):
 
 
 def degenerate_extent(left_elems):
-    """the present left points share one x (or one y) of magnitude >= 2^53: the class of the
-    finding reported by probe_degenerate_extent (the zero extent is widened by + 1, which such a
-    coordinate absorbs); the generated streams leave it to the probe"""
+    """the present left points share one x (or one y) of magnitude >= 2^53 (only counted): the
+    spatial index widens a zero extent by + 1, which such a coordinate absorbs - sjoin raised
+    ZeroDivisionError there until /repo 7cf01a0; probe_degenerate_extent holds the class in
+    every run, the scaled and random streams meet it now and then"""
     pts = [p for p in left_elems if p is not None]
     for ax in (0, 1):
         vals = {float(p[ax]) for p in pts}
@@ -99,17 +100,21 @@ def degenerate_extent(left_elems):
 
 def probe_degenerate_extent(rep):
     """left frames whose points have NO extent in x or in y, at magnitudes on both sides of 2^53
-    (one point; several points on one vertical / horizontal line), joined with a square around
-    them: one row per point.  Deterministic."""
+    (one point; several points on one vertical / horizontal line; both signs), joined with a
+    square around them and a square beside them: exactly one row per point (run_call also compares
+    with the brute-force pair set of the scalar form).  Deterministic."""
     M = _main()
-    for mag in (2.0 ** 30, 2.0 ** 52, 2.0 ** 53, 2.0 ** 60, 1e29):
+    for mag in (2.0 ** 30, 2.0 ** 52, 2.0 ** 53, -2.0 ** 54, 2.0 ** 60, 1e29, 2.0 ** 200):
         for name, pts in (('one-point', [[mag, 1.0], None]),
                           ('common-x', [[mag, 1.0], [mag, 2.0], None, [mag, 3.0]]),
-                          ('common-y', [[1.0, -mag], [2.0, -mag], [3.0, -mag]])):
+                          ('common-y', [[1.0, -mag], [2.0, -mag], [3.0, -mag]]),
+                          ('one-point-twice', [[mag, -mag], [mag, -mag]])):
             xs, ys = [p[0] for p in pts if p], [p[1] for p in pts if p]
-            h = max(4.0, mag / 2 ** 20)
+            h = max(4.0, abs(mag) / 2 ** 20)
             box = [M.sq(min(xs) - h, min(ys) - h, max(xs) + h, max(ys) + h)]
-            lspec, rspec, ls, rs = M.make_specs(M.META[0], pts, 'float64', 'polygon', [box, None], 'float64')
+            beside = [M.sq(max(xs) + 2 * h, min(ys) - h, max(xs) + 3 * h, max(ys) + h)]
+            lspec, rspec, ls, rs = M.make_specs(M.META[0], pts, 'float64', 'polygon', [box, None, beside],
+                                                'float64')
             fr = M.Frames(lspec, rspec, export=False)
             batch = []
             rows = M.run_call(rep, fr, 'inner', ls, rs, batch, ('degenerate-extent', name, mag), model=False)
@@ -219,8 +224,7 @@ def compare_scaled(rep, lspec, rspec, ls, rs, how, xf, base_rows, meta_desc='sca
         return None
     tl, tr = t
     if degenerate_extent(tl['elems']):
-        rep.count('scaled:degenerate-extent>=2^53(left to the probe)')
-        return None
+        rep.count('scaled:left-points-without-extent-at>=2^53')
     fr = M.Frames(tl, tr, export=False)
     batch = []
     rows = M.run_call(rep, fr, how, ls, rs, batch, (meta_desc, tuple(xf)), model=False)
@@ -525,8 +529,7 @@ def run_float(rep, tier):
         meta = M.META_GEOM[i % len(M.META_GEOM)]
         lspec, rspec, ls, rs = M.make_specs(meta, left, 'float64', kind, right, 'float64')
         if degenerate_extent(left):
-            rep.count('float-frames:degenerate-extent>=2^53(left to the probe)')
-            continue
+            rep.count('float-frames:left-points-without-extent-at>=2^53')
         try:
             fr = M.Frames(lspec, rspec, export=False)
         except Exception as e:  # noqa: BLE001
